@@ -93,7 +93,7 @@ type c08Scenario struct {
 var c08TagRe = regexp.MustCompile(`"(?:text|message|tag)":"(s[0-9]+\.[a-z0-9]+\.[a-z0-9]+)"`)
 
 type c08Msg struct {
-	Kind string // resp | notif | sreq | prime | other
+	Kind string // resp | notif | sreq | bcast | prime | other
 	Tag  string
 	OS   string // origin session
 	OR   string // origin request ("sa" = outside any request, "init")
@@ -128,6 +128,9 @@ func c08Classify(data []byte) c08Msg {
 		out.Tag = string(mm[1])
 		p := strings.Split(out.Tag, ".")
 		out.OS, out.OR = p[0], p[1]
+		if out.Kind == "notif" && strings.HasPrefix(p[2], "b") {
+			out.Kind = "bcast" // Server.ResourceUpdated called by the handler of (OS, OR): goes to every subscribed session
+		}
 	}
 	return out
 }
@@ -193,6 +196,7 @@ func (x *c08Exch) writeHeaderLocked(code int) {
 func (x *c08Exch) Flush() {}
 
 func (x *c08Exch) Write(p []byte) (int, error) {
+	x.run.gate("W:" + x.name) // the "client" stops reading: the write blocks where the SDK issued it
 	x.mu.Lock()
 	defer x.mu.Unlock()
 	x.writeHeaderLocked(http.StatusOK)
@@ -262,6 +266,9 @@ func (x *c08Exch) record(e c08Event, raw string) {
 	r := x.run
 	if e.Msg.Kind == "resp" && e.Msg.Tag == "" && e.Msg.RID == "1000" {
 		e.Msg.Tag, e.Msg.OS, e.Msg.OR = x.sess+".init.resp", x.sess, "init"
+	}
+	if e.Msg.Kind == "resp" && e.Msg.Tag == "" && e.Msg.RID == "1001" {
+		e.Msg.Tag, e.Msg.OS, e.Msg.OR = x.sess+".sub.resp", x.sess, "sub"
 	}
 	x.events = append(x.events, e)
 	if e.EID != "" {
@@ -336,15 +343,18 @@ type c08Store struct {
 }
 
 func (s *c08Store) Open(ctx context.Context, sid, stream string) error {
-	err := s.inner.Open(ctx, sid, stream)
 	xn, _ := ctx.Value(c08XKey{}).(string)
+	if stream != "" {
+		s.run.gate("O:" + xn)
+	}
+	err := s.inner.Open(ctx, sid, stream)
 	s.run.log.emit("st.open", "s", s.run.sessName(sid), "sid", sid, "stream", stream, "x", xn, "err", err != nil)
 	return err
 }
 
 func (s *c08Store) Append(ctx context.Context, sid, stream string, data []byte) error {
 	m := c08Classify(data)
-	if m.Tag != "" {
+	if m.Tag != "" && m.Kind != "bcast" {
 		s.run.gate("A:" + m.OS + "." + m.OR)
 	}
 	tag := m.Tag
@@ -353,6 +363,9 @@ func (s *c08Store) Append(ctx context.Context, sid, stream string, data []byte) 
 	}
 	if m.Kind == "resp" && tag == "" && m.RID == "1000" {
 		tag = s.run.sessName(sid) + ".init.resp"
+	}
+	if m.Kind == "resp" && tag == "" && m.RID == "1001" {
+		tag = s.run.sessName(sid) + ".sub.resp"
 	}
 	// the append, its index and its log line are one atomic step of the ground truth
 	s.mu.Lock()
@@ -440,7 +453,10 @@ type c08Run struct {
 	held     atomic.Int32
 	nans     int
 	creating string
+	updBusy  bool
 }
+
+const c08URI = "verif://resource"
 
 func (r *c08Run) sessName(sid string) string {
 	r.mu.Lock()
@@ -587,7 +603,7 @@ func (r *c08Run) tool(ctx context.Context, req *mcp.CallToolRequest) (*mcp.CallT
 	h.started = true
 	r.mu.Unlock()
 	r.log.emit("h.start", "s", a.S, "r", a.R, "sid", req.Session.ID())
-	n, q := 0, 0
+	n, q, b := 0, 0, 0
 	for {
 		select {
 		case cmd := <-h.cmd:
@@ -616,6 +632,18 @@ func (r *c08Run) tool(ctx context.Context, req *mcp.CallToolRequest) (*mcp.CallT
 				r.mu.Unlock()
 				r.disarm("A:" + key)
 				r.log.emit("h.sreq.end", "s", a.S, "r", a.R, "tag", tag, "err", c08Err(err))
+			case "upd":
+				b++
+				tag := fmt.Sprintf("%s.b%d", key, b)
+				r.log.emit("h.bc", "s", a.S, "r", a.R, "tag", tag)
+				r.mu.Lock()
+				h.busy, r.updBusy = true, true
+				r.mu.Unlock()
+				err := r.server.ResourceUpdated(ctx, &mcp.ResourceUpdatedNotificationParams{Meta: mcp.Meta{"tag": tag}, URI: c08URI})
+				r.mu.Lock()
+				h.busy, r.updBusy = false, false
+				r.mu.Unlock()
+				r.log.emit("h.bc.end", "s", a.S, "r", a.R, "tag", tag, "err", c08Err(err))
 			case "ret":
 				r.mu.Lock()
 				h.ended = true
@@ -665,6 +693,8 @@ func (r *c08Run) start(name, sess, kind, method string, hdr map[string]string, b
 		}()
 		r.handler.ServeHTTP(x, req)
 		r.disarm("F:" + name)
+		r.disarm("W:" + name)
+		r.disarm("O:" + name)
 		x.finish()
 	}()
 	return x
@@ -681,7 +711,7 @@ func (r *c08Run) headers(s *c08SessState, accept string) map[string]string {
 const c08AcceptBoth = "application/json, text/event-stream"
 
 func c08ReqID(rn string) int {
-	n, err := strconv.Atoi(strings.TrimLeft(rn, "r"))
+	n, err := strconv.Atoi(strings.TrimLeft(rn, "rd"))
 	if err != nil {
 		return 77
 	}
@@ -690,6 +720,8 @@ func c08ReqID(rn string) int {
 
 func (r *c08Run) setup() error {
 	r.server = mcp.NewServer(&mcp.Implementation{Name: "c08-server", Version: "v1"}, &mcp.ServerOptions{
+		SubscribeHandler:   func(context.Context, *mcp.SubscribeRequest) error { return nil },
+		UnsubscribeHandler: func(context.Context, *mcp.UnsubscribeRequest) error { return nil },
 		GetSessionID: func() string {
 			// the id is as random as the default one; the harness only learns it early
 			id := crand.Text()
@@ -753,6 +785,16 @@ func (r *c08Run) setup() error {
 		if !ok {
 			return fmt.Errorf("initialized of %s failed (status %d)", s.Name, x2.status)
 		}
+		// every session subscribes to the one resource the handlers may report as updated
+		r.log.emit("x.begin", "x", "u."+s.Name, "s", s.Name, "kind", "sub", "method", "POST", "reqs", []string{"sub"}, "rids", []string{"1001"}, "target", "sub", "leid", "", "lidx", -1, "stream", "?")
+		x3 := r.start("u."+s.Name, s.Name, "sub", "POST", r.headers(st, c08AcceptBoth), `{"jsonrpc":"2.0","id":1001,"method":"resources/subscribe","params":{"uri":"`+c08URI+`"}}`)
+		r.settle()
+		x3.mu.Lock()
+		ok = x3.status == 200 && x3.ended
+		x3.mu.Unlock()
+		if !ok {
+			return fmt.Errorf("subscribe of %s failed (status %d)", s.Name, x3.status)
+		}
 	}
 	r.log.emit("ready")
 	return nil
@@ -811,10 +853,13 @@ func (r *c08Run) step(st []any) {
 		body := fmt.Sprintf(`{"jsonrpc":"2.0","id":%d,"method":"tools/call","params":{"name":"vt","arguments":{"s":%q,"r":%q}}}`, c08ReqID(rn), s.name, rn)
 		r.log.emit("x.begin", "x", "p."+s.name+"."+rn, "s", s.name, "kind", "call", "method", "POST", "reqs", []string{rn}, "rids", []string{strconv.Itoa(c08ReqID(rn))}, "target", rn, "leid", "", "lidx", -1, "stream", "?")
 		r.start("p."+s.name+"."+rn, s.name, "call", "POST", r.headers(s, c08AcceptBoth), body)
-	case "emit", "sreq", "ret":
+	case "emit", "sreq", "ret", "upd":
 		r.mu.Lock()
 		h := r.handlers[arg(1)+"."+arg(2)]
 		ok := h != nil && h.started && !h.ended && !h.busy && !h.retSent
+		if op == "upd" && (r.updBusy || r.sc.Cfg.Stateless) {
+			ok = false
+		}
 		if ok && op == "ret" {
 			h.retSent = true
 		}
@@ -941,7 +986,7 @@ func (r *c08Run) step(st []any) {
 		if op == "del" {
 			// the graceful variant: only when no handler of the session is running and no write is in flight
 			r.mu.Lock()
-			idle := !s.saBusy && r.held.Load() == 0
+			idle := !s.saBusy && !r.updBusy && r.held.Load() == 0
 			for k, h := range r.handlers {
 				if strings.HasPrefix(k, s.name+".") && h.started && !h.ended {
 					idle = false
@@ -956,10 +1001,10 @@ func (r *c08Run) step(st []any) {
 		s.deleted = true
 		r.log.emit("del", "s", s.name)
 		r.start("d."+s.name, s.name, "del", "DELETE", r.headers(s, c08AcceptBoth), "")
-	case "gateA", "gateF":
+	case "gateA", "gateF", "gateW", "gateO":
 		key := "A:" + arg(1) + "." + arg(2)
-		if op == "gateF" {
-			key = "F:" + arg(1)
+		if op != "gateA" {
+			key = op[4:] + ":" + arg(1) // gateF g1 / gateW g1 / gateO p.s1.r1
 		}
 		r.mu.Lock()
 		if g := r.gates[key]; g != nil && g.hit {
@@ -1135,6 +1180,7 @@ func c08Random(rnd *rand.Rand, i int) *c08Scenario {
 	type hk struct{ s, r string }
 	var live []hk // posted requests (possibly returned)
 	posted := map[string]int{}
+	dupd := map[string]bool{}
 	var xs []string
 	gets := 0
 	n := 5 + rnd.IntN(16)
@@ -1184,6 +1230,33 @@ func c08Random(rnd *rand.Rand, i int) *c08Scenario {
 			xs = append(xs, g)
 		case k < 19 && !sc.Cfg.Stateless && rnd.IntN(4) == 0:
 			sc.Steps = append(sc.Steps, []any{"del", sname()})
+		case k < 20 && rnd.IntN(3) == 0 && len(live) > 0:
+			// broadcast from a handler / a duplicate id raced at EventStore.Open / a write racing a replay
+			h := live[rnd.IntN(len(live))]
+			switch rnd.IntN(3) {
+			case 0:
+				sc.Steps = append(sc.Steps, []any{"upd", h.s, h.r})
+			case 1:
+				if strings.HasPrefix(h.r, "r") && !dupd[h.s+h.r] {
+					dupd[h.s+h.r] = true
+					d := "d" + h.r[1:]
+					if rnd.IntN(2) == 0 {
+						sc.Steps = append(sc.Steps, []any{"post", h.s, d})
+					} else {
+						sc.Steps = append(sc.Steps, []any{"gateO", "p." + h.s + "." + d}, []any{"post", h.s, d}, []any{"emit", h.s, h.r}, []any{"open"})
+					}
+					live = append(live, hk{h.s, d})
+					xs = append(xs, "p."+h.s+"."+d)
+				}
+			case 2:
+				if !sc.Cfg.Stateless && sc.Cfg.Store {
+					gets++
+					g := fmt.Sprintf("g%d", gets)
+					sc.Steps = append(sc.Steps, []any{"cut", "p." + h.s + "." + h.r}, []any{"emit", h.s, h.r}, []any{"gateW", g},
+						[]any{"get", g, h.s, h.r, fmt.Sprintf("any%d", rnd.IntN(3))}, []any{"emit", h.s, h.r}, []any{"open"})
+					xs = append(xs, g)
+				}
+			}
 		case k < 20 && sc.Cfg.Store && len(live) > 0:
 			h := live[rnd.IntN(len(live))]
 			sc.Steps = append(sc.Steps, []any{"gateA", h.s, h.r}, []any{"emit", h.s, h.r})
